@@ -4,7 +4,8 @@
    (Model/Merkle.v climb / init_walk, Model/Contracts.v dc_add / dc_root) at node := Keccak-256. *)
 From Coq Require Import Arith NArith List Bool.
 From Verif Require Import Base.Bytes Base.Hash Model.Merkle Model.MerkleSpec Model.Contracts Model.TreeStore Model.BridgeStore
-  Proofs.Frontier Proofs.Rht Proofs.InitCache Proofs.ContractProofs Proofs.BitFacts Proofs.C01Proofs Gen.SourceFacts.
+  Proofs.Frontier Proofs.Rht Proofs.InitCache Proofs.ContractProofs Proofs.BitFacts Proofs.C01Proofs
+  Proofs.TreeStoreProofs Proofs.TreeStoreCorollaries Gen.SourceFacts.
 Import ListNotations.
 Local Close Scope N_scope.
 
@@ -32,15 +33,14 @@ Theorem C01_frontier_invariant_preserved : forall H i c, i < 2 ^ H -> CacheInv n
 Proof. intros H i c Hi Hinv. apply add_leaf_preserves; [exact Hinv|apply (high_bits_zero node f); exact Hi]. Qed.
 (* ... and is re-established by initCache from the stored nodes (restart, index mismatch after reorg, rollback):
    for every store that contains the nodes of version n *)
-Theorem C01_frontier_invariant_after_restart : forall m n H c, Closed node z0 f m n -> 0 < n -> n <= 2 ^ H ->
+Theorem C01_frontier_invariant_after_restart : forall m n H c, Closed node z0 f H m n -> 0 < n -> n <= 2 ^ H ->
   exists c', init_walk m H (mroot node z0 f H n) (Nat.testbit (n - 1)) c = Some c' /\ CacheInv node z0 f H n c'.
 Proof. exact (init_cache_inv node z0 f). Qed.
 (* appending keeps the store closed (so the previous theorem applies after any number of appends);
    the only use of hash injectivity: an insert-ignore that meets an existing key *)
 Theorem C01_store_stays_closed : (forall a b c d, node a b = node c d -> a = c /\ b = d) ->
-  forall heq_dec m i H, WF node m -> Closed node z0 f m i -> i < 2 ^ H ->
-  (forall h k, H <= h -> k * 2 ^ S h < S i -> False) ->
-  Closed node z0 f (ins_path node z0 f heq_dec m i H) (S i).
+  forall heq_dec m i H, WF node m -> Closed node z0 f H m i -> i < 2 ^ H ->
+  Closed node z0 f H (ins_path node z0 f heq_dec m i H) (S i).
 Proof. intros inj heq_dec. exact (append_keeps_closed node z0 f heq_dec inj). Qed.
 
 (* With ANY frontier satisfying the invariant, the root the node records for deposit count i is the Merkle root
@@ -63,6 +63,43 @@ Theorem C01_exit_root_matches_contract : forall H i c b0, S i < 2 ^ H -> CacheIn
   = dc_root node z0 H (Nat.testbit (S i)) (dc_after node f H (S i) b0).
 Proof. exact (go_root_is_contract_root node z0 f). Qed.
 End Generic.
+
+
+(* ================= store level: every reachable state of the (generic) executable tree store =================
+   `Reach HT node zhf db mem L`: the store (root table, node table, in-memory frontier) is reachable from the empty one by
+   successful appends of the next index, appends with a wrong index, appends abandoned after the hashing loop (storage fault),
+   memory invalidations with arbitrary cache content (restart, rollback callback, reorg) and Tree.Reorg; L is the surviving
+   history (leaf, block, position). The executable model (compared with the Go code on every run) is the instance
+   HT := 32, node := Keccak-256, zhf := the precomputed zero table (zero_table_is_zero). Hypothesis: node injective. *)
+Section Store.
+Variable HT : nat.
+Variable node : N -> N -> N.
+Hypothesis node_inj : forall a b c d, node a b = node c d -> a = c /\ b = d.
+Variable zhf : nat -> N.
+Hypothesis Hzh : forall h, h <= HT -> zhf h = zero node 0%N h.
+
+(* C01 for the store: in EVERY reachable state, the root reported for deposit count i is the Merkle root of the first i+1
+   leaves of the surviving history (= the contract's root, C01_contract_root_is_merkle_root), recorded at that deposit's
+   block and position; counts beyond the history have no root. All partitions into blocks, all restart points, all reorgs. *)
+Theorem C01_store_exit_root_by_index : forall db mem L i, Reach HT node zhf db mem L -> i < length L ->
+  exists r, root_by_index db (N.of_nat i) = Some r /\ r_hash r = mroot node 0%N (lf L) HT (S i) /\
+            r_pos r = N.of_nat i /\ (r_block r, r_bpos r) = snd (nth i L (0%N, (0%N, 0%N))).
+Proof. exact (store_root_by_index HT node node_inj zhf Hzh). Qed.
+Theorem C01_store_no_root_beyond_history : forall db mem L i, Reach HT node zhf db mem L -> length L <= i ->
+  root_by_index db (N.of_nat i) = None.
+Proof. exact (store_root_beyond HT node node_inj zhf Hzh). Qed.
+(* the invariant behind it, and progress: the next deposit is always accepted, any other index refused *)
+Theorem C01_store_invariant : forall db mem L, Reach HT node zhf db mem L ->
+  TInv HT node (lf L) db (length L) /\ MemInv HT node (lf L) mem (length L) /\ nonzero L /\ labels_ok (t_roots db) L.
+Proof. exact (Reach_inv HT node node_inj zhf Hzh). Qed.
+Theorem C01_store_next_deposit_accepted : forall db mem L blk bpos leaf, Reach HT node zhf db mem L ->
+  fresh_pos db blk bpos -> leaf <> 0%N -> length L < 2 ^ HT ->
+  exists mem' db', Gen.add_leaf_exec HT node zhf db mem blk bpos (N.of_nat (length L)) leaf = (mem', inr db').
+Proof. exact (store_add_succeeds HT node node_inj zhf Hzh). Qed.
+Theorem C01_store_gap_refused : forall db mem L blk bpos idx leaf, Reach HT node zhf db mem L -> idx <> N.of_nat (length L) ->
+  exists mem', Gen.add_leaf_exec HT node zhf db mem blk bpos idx leaf = (mem', inl EInvalidIndex).
+Proof. exact (store_wrong_index_refused HT node node_inj zhf Hzh). Qed.
+End Store.
 
 (* the leaf the node uses for a deposit = the contract's getLeafValue of the same fields (real Keccak, byte level) *)
 Theorem C01_bridge_leaf_is_contract_leaf : forall b, (b_lt b < 256)%N ->
@@ -91,3 +128,8 @@ Print Assumptions C01_exit_root_running.
 Print Assumptions C01_contract_root_is_merkle_root.
 Print Assumptions C01_exit_root_matches_contract.
 Print Assumptions C01_bridge_leaf_is_contract_leaf.
+Print Assumptions C01_store_exit_root_by_index.
+Print Assumptions C01_store_no_root_beyond_history.
+Print Assumptions C01_store_invariant.
+Print Assumptions C01_store_next_deposit_accepted.
+Print Assumptions C01_store_gap_refused.
